@@ -21,6 +21,11 @@
 //	note:<k>            the peer sends the next notification of observation k (non-confirmable, increasing Observe value);
 //	                    the j-th notification of observation k is logged like a request with the number 9000+100k+j
 //	pad:<n>             the next frame / datagram of the peer is padded to exactly n bytes (payload)
+//	empty:<i>:<ack|rst> (udp) the peer sends an empty message (code 0.00, no token) of that type whose message ID matches nothing
+//	                    outstanding; one that reaches the application's handler is logged like a request with the number 8000+i
+//
+// A line `disc <order>` runs one discovery of a real udp.Server over a loopback socket instead (see runDisc).
+//
 //	resp:<k>            the peer answers nested exchange k (piggybacked on the datagram transport; with an Observe option for o<k>)
 //	ack:<k>             the peer sends the bare ACK for nested exchange k (udp)
 //	sep:<k>             the peer sends the separate response for nested exchange k (udp, NON)
@@ -42,6 +47,7 @@ import (
 	"context"
 	"errors"
 	"fmt"
+	"net"
 	"os"
 	"strconv"
 	"strings"
@@ -53,10 +59,13 @@ import (
 	"github.com/plgd-dev/go-coap/v3/message"
 	"github.com/plgd-dev/go-coap/v3/message/codes"
 	"github.com/plgd-dev/go-coap/v3/message/pool"
+	coapNet "github.com/plgd-dev/go-coap/v3/net"
 	"github.com/plgd-dev/go-coap/v3/net/responsewriter"
+	"github.com/plgd-dev/go-coap/v3/options"
 	pkgErrors "github.com/plgd-dev/go-coap/v3/pkg/errors"
 	tcpclient "github.com/plgd-dev/go-coap/v3/tcp/client"
 	tcpcoder "github.com/plgd-dev/go-coap/v3/tcp/coder"
+	"github.com/plgd-dev/go-coap/v3/udp"
 	udpclient "github.com/plgd-dev/go-coap/v3/udp/client"
 	udpcoder "github.com/plgd-dev/go-coap/v3/udp/coder"
 	"verifharness/internal/lp"
@@ -209,6 +218,12 @@ func (w *world) watch(k int, prog string) {
 }
 
 func (w *world) handler(r *pool.Message) {
+	if r.Code() == codes.Empty && r.MessageID() >= 30000 && r.MessageID() < 31000 {
+		// an empty message of the peer that the message layer handed up
+		w.log(fmt.Sprintf("s%d", 8000+int(r.MessageID())-30000))
+		w.log(fmt.Sprintf("e%d", 8000+int(r.MessageID())-30000))
+		return
+	}
 	if r.Code() < codes.GET || r.Code() > codes.DELETE {
 		return
 	}
@@ -390,6 +405,16 @@ func (w *world) apply(f []string, obsExch map[int]bool) {
 		w.push(w.build(message.NonConfirmable, codes.Content, nestTok(k), mid, func(x *pool.Message) { x.SetObserve(uint32(10 + j)) }))
 	case f[0] == "pad" && len(f) == 2:
 		w.padNext = atoi(f[1])
+	case f[0] == "empty" && len(f) == 3:
+		if !w.udp {
+			return
+		}
+		time.Sleep(time.Millisecond)
+		typ := message.Reset
+		if f[2] == "ack" {
+			typ = message.Acknowledgement
+		}
+		w.push(w.build(typ, codes.Empty, nil, int32(30000+atoi(f[1])), nil))
 	case f[0] == "sleep" && len(f) == 2:
 		time.Sleep(time.Duration(atoi(f[1])) * time.Millisecond)
 	case f[0] == "close":
@@ -533,6 +558,127 @@ func runTCP(t *testing.T, cache int, queue int, limit, eplimit int64, ops []stri
 
 var _ = bytes.NewReader
 
+// runDisc: one discovery of a real udp.Server over a loopback socket (real time).  The responder is a scripted raw socket.  It
+// answers the discovery request (response 1); the receiver callback, run by the receive loop of the responder's connection,
+// issues a blocking confirmable GET on that connection; the responder then sends, 30 ms apart and in the given order
+// (joined by '-'): `ack` the empty ACK of the nested request, `d2` a second response to the discovery (response 2), `sep` the
+// separate response of the nested request, or `pig` its piggybacked response.  Output: the events in the order they happened:
+//
+//	A1b A2   the responder sent discovery response 1 (its callback blocks) / 2      K   the responder answered the nested request
+//	s<j> e<j>  the callback for response j entered / returned                       n1:<ok|timeout|…>:<ms>  the nested request returned
+func runDisc(order string) (out string) {
+	defer func() {
+		if r := recover(); r != nil {
+			out = fmt.Sprintf("panic:%v", r)
+		}
+	}()
+	var mu sync.Mutex
+	var events []string
+	logEv := func(s string) { mu.Lock(); events = append(events, s); mu.Unlock() }
+	l, err := coapNet.NewListenUDP("udp4", "127.0.0.1:0")
+	if err != nil {
+		return "skip:listen"
+	}
+	defer l.Close()
+	srv := udp.NewServer(options.WithMessagePool(pool.New(64, 2048)), options.WithErrors(func(error) {}))
+	served := make(chan struct{})
+	go func() { defer close(served); _ = srv.Serve(l) }()
+	defer func() { srv.Stop(); <-served }()
+	time.Sleep(20 * time.Millisecond)
+	resp, err := net.ListenUDP("udp4", &net.UDPAddr{IP: net.IPv4(127, 0, 0, 1)})
+	if err != nil {
+		return "skip:listen"
+	}
+	defer resp.Close()
+	discTok := message.Token{0xD1, 0x5C}
+	enc := func(typ message.Type, code codes.Code, tok message.Token, mid int32, payload string) []byte {
+		m := pool.NewMessage(context.Background())
+		m.SetType(typ)
+		m.SetCode(code)
+		if len(tok) > 0 {
+			m.SetToken(tok)
+		}
+		m.SetMessageID(mid)
+		if payload != "" {
+			m.SetBody(bytes.NewReader([]byte(payload)))
+		}
+		b, err := m.MarshalWithEncoder(udpcoder.DefaultCoder)
+		if err != nil {
+			panic(err)
+		}
+		return append([]byte(nil), b...)
+	}
+	go func() {
+		buf := make([]byte, 2048)
+		for {
+			n, from, err := resp.ReadFromUDP(buf)
+			if err != nil {
+				return
+			}
+			m := pool.NewMessage(context.Background())
+			if _, err := m.UnmarshalWithDecoder(udpcoder.DefaultCoder, buf[:n]); err != nil {
+				continue
+			}
+			if m.Code() != codes.GET {
+				continue
+			}
+			if bytes.Equal(m.Token(), discTok) {
+				logEv("A1b")
+				_, _ = resp.WriteToUDP(enc(message.NonConfirmable, codes.Content, discTok, 100, "r1"), from)
+				continue
+			}
+			// the nested request
+			tok := append(message.Token(nil), m.Token()...)
+			mid := m.MessageID()
+			for _, step := range strings.Split(order, "-") {
+				switch step {
+				case "ack":
+					_, _ = resp.WriteToUDP(enc(message.Acknowledgement, codes.Empty, nil, mid, ""), from)
+				case "d2":
+					logEv("A2")
+					_, _ = resp.WriteToUDP(enc(message.NonConfirmable, codes.Content, discTok, 101, "r2"), from)
+				case "sep":
+					logEv("K")
+					_, _ = resp.WriteToUDP(enc(message.NonConfirmable, codes.Content, tok, 102, "x"), from)
+				case "pig":
+					logEv("K")
+					_, _ = resp.WriteToUDP(enc(message.Acknowledgement, codes.Content, tok, mid, "x"), from)
+				}
+				time.Sleep(30 * time.Millisecond)
+			}
+		}
+	}()
+	ctx, cancel := context.WithTimeout(context.Background(), 1500*time.Millisecond)
+	defer cancel()
+	req := pool.NewMessage(ctx)
+	_ = req.SetupGet("/oic/res", discTok)
+	req.SetMessageID(4711)
+	req.SetType(message.NonConfirmable)
+	_ = srv.DiscoveryRequest(req, resp.LocalAddr().String(), func(cc *udpclient.Conn, r *pool.Message) {
+		body, _ := r.ReadBody()
+		j := 0
+		if len(body) == 2 && body[0] == 'r' {
+			j = int(body[1] - '0')
+		}
+		logEv(fmt.Sprintf("s%d", j))
+		if j == 1 {
+			nctx, ncancel := context.WithTimeout(context.Background(), 800*time.Millisecond)
+			start := time.Now()
+			res, err := cc.Get(nctx, "/x")
+			if err == nil {
+				cc.ReleaseMessage(res)
+			}
+			ncancel()
+			logEv(fmt.Sprintf("n1:%s:%d", errName(err), time.Since(start).Milliseconds()))
+		}
+		logEv(fmt.Sprintf("e%d", j))
+	})
+	time.Sleep(50 * time.Millisecond)
+	mu.Lock()
+	defer mu.Unlock()
+	return strings.Join(events, ",") + ";final:0"
+}
+
 func TestC11(t *testing.T) {
 	err := lp.FileLoop(func(f []string, w *bufio.Writer) {
 		defer func() {
@@ -540,6 +686,11 @@ func TestC11(t *testing.T) {
 				fmt.Fprintf(w, "panic %v\n", r)
 			}
 		}()
+		if len(f) == 2 && f[0] == "disc" {
+			fmt.Fprintln(w, runDisc(f[1]))
+			_ = w.Flush()
+			return
+		}
 		if len(f) < 5 || f[0] != "scn" {
 			fmt.Fprintln(w, "bad-op")
 			return
